@@ -32,6 +32,24 @@ SHORTSTR = ['', 'a', 'é', '€', '\U0001F600', 'Ύ', 'AMQP',
             'a' * 255, 'é' * 127 + 'a']
 LONGSTR = ['', 'a', 'é€\U0001F600', '\x00guest\x00guest', 'a' * 255,
            'a' * 256, 'Ύ' * 3, 'a' * 65536]
+# text that a helpful library might "tidy": strings that parse as numbers,
+# booleans, dates or containers, with padding, signs, separators or
+# non-ASCII digits; strings that str.strip / lower / upper / casefold /
+# unicodedata.normalize would change. An AMQP string is opaque.
+LOOKALIKES = [
+    '0', '1', '00', '060000', ' 60000', '60000 ', '60000\n', '\t1', '+60000',
+    '-0', '-1', '60_000', '1e3', '1E3', '1.0', '1.50', '.5', '5.', '0x10',
+    '0o7', '0b1', '\u0666\u0660', '\uff16\uff10', '\u00b2', 'true', 'True',
+    'false', 'null', 'None', 'nan', 'NaN', 'inf', '-inf', 'Infinity', '1j',
+    '[]', '{}', '""', "\'\'", "b\'x\'", '2020-01-01', '2020-01-01T00:00:00Z',
+    '1600000000', '1600000000000', 'application/json ', ' text/plain',
+    'TEXT/PLAIN', 'text/plain; charset=UTF-8', 'utf-8', 'UTF8', 'gzip ',
+    'Guest', 'a\r\nb', 'a\nb', '\ufeffa', 'a\u200b', 'e\u0301', '\u212b',
+    '\ufb01', '\u01c5', '\u0130', '\u00df', '\u0131', '\u1e9e', 'a\u00a0',
+    '\u3000a', 'a  b', 'a/../b', 'a%20b', 'a+b', 'a&amp;b', '&lt;a&gt;',
+    '<a>', 'a\\b', 'amq.', 'AMQ.x', '#', '*', 'a.*.b', 'a.#',
+]
+
 EXCHANGE_NAMES = ['', 'a', 'amq.topic', 'tag:example.org,2000:q/1 @#_-',
                   'a' * 127]
 QUEUE_NAMES = EXCHANGE_NAMES + ['a' * 255]
